@@ -167,7 +167,7 @@ def run(tier, seed):
 
         if len(_g.kept_nodes(q)) >= 2:
             progsi.append(q)
-    jobs = [(q, st, i) for i, q in enumerate(progsi) for st in ("local", "local_lru", "dbfs")]
+    jobs = [(q, st, i) for i, q in enumerate(progsi) for st in ("local", "local_lru", "dbfs", "local_api_cache_all")]
     for j, r in zip(jobs, core.fork_map(interleaved_job, jobs, timeout=1800)):
         if isinstance(r, core.JobFailed):
             rep.inconclusive.append("interleaved job: %r" % (r,))
